@@ -880,9 +880,231 @@ fn c16_dual<F: Family>(ctx: &mut Ctx) -> R {
     Ok(())
 }
 
+/// Models close to `m` in the order (first entry: `m` itself), valid for a type with the
+/// given capacity / normalization.
+fn variants(ctx: &mut Ctx, m: &Model, cap2: usize, norm: bool) -> Vec<Model> {
+    let fix = |mut x: Model| {
+        if norm {
+            x = x.normalized();
+        }
+        x.bh1.truncate(64);
+        x.bh2.truncate(cap2);
+        x
+    };
+    let mut out = vec![m.clone()];
+    let mut push = |x: Model| out.push(fix(x));
+    let mut x = m.clone();
+    x.bh1.push(0);
+    push(x);
+    let mut x = m.clone();
+    x.bh2.push(0);
+    push(x);
+    let mut x = m.clone();
+    x.bh1.pop();
+    push(x);
+    let mut x = m.clone();
+    x.bh2.pop();
+    push(x);
+    let mut x = m.clone();
+    x.log_bs = if x.log_bs == 30 { 29 } else { x.log_bs + 1 };
+    push(x);
+    let mut x = m.clone();
+    if let Some(l) = x.bh2.last_mut() {
+        *l = (*l + 1 + ctx.rng.below(62) as u8) % 64;
+    }
+    push(x);
+    let mut x = m.clone();
+    if !x.bh1.is_empty() {
+        let i = ctx.rng.range(0, x.bh1.len() - 1);
+        x.bh1[i] = ctx.rng.below(64) as u8;
+    }
+    push(x);
+    out
+}
+
+/// Mixed pairs (object produced into a used destination, freshly built object): the same
+/// equality / order / hash laws as for fresh objects.
+fn c16_mixed_plain<T: Plain>(ctx: &mut Ctx, first: &str, second: &str, made: Vec<(&'static str, T, Model)>) -> R {
+    for (route, r, m) in &made {
+        let others = variants(ctx, m, T::CAP2, T::NORM);
+        for o in &others {
+            let input = || {
+                format!(
+                    "type {}\nfirst content (what the destination held): {}\nsecond content (what was written over it): {}\nroute: {}\nreused object prints as {} ; compared with the freshly built {}",
+                    T::NAME, first, second, route, m.text(), o.text()
+                )
+            };
+            let obs = ctx.nopanic("eq-ord-hash-never-panic", || {
+                let f = T::of(o);
+                (*r == f, f == *r, r.cmp(&f), f.cmp(r), r.partial_cmp(&f), hash_of(r) == hash_of(&f), r.str_(), r.valid())
+            }, input)?;
+            let want_eq = m == o;
+            let want_ord = m.order(o);
+            let ok = obs.0 == want_eq && obs.1 == want_eq && obs.2 == want_ord && obs.3 == want_ord.reverse() && obs.4 == Some(want_ord) && (!want_eq || obs.5) && obs.6 == m.text();
+            ctx.check("reused-vs-fresh-eq-ord-hash", ok, || {
+                format!(
+                    "{}\nreal code: reused == fresh {}, fresh == reused {}, reused.cmp(fresh) {:?}, fresh.cmp(reused) {:?}, partial_cmp {:?}, equal Hash output {}, reused text {:?}, reused.is_valid() {}\noracle: equal {} (texts), order {:?} / {:?} (block size, block hash 1 with prefix first, block hash 2), equal objects hash equally",
+                    input(), obs.0, obs.1, obs.2, obs.3, obs.4, obs.5, obs.6, obs.7, want_eq, want_ord, want_ord.reverse()
+                )
+            })?;
+        }
+    }
+    Ok(())
+}
+
+fn c16_mixed_dual<D: Dual>(ctx: &mut Ctx, first: &str, second: &str, made: Vec<(&'static str, D, Model)>) -> R {
+    let cap2 = D::Raw::CAP2;
+    for (route, r, m) in &made {
+        let mut others = variants(ctx, m, cap2, false);
+        others.push(same_norm_other_runs(ctx, m, cap2));
+        for o in &others {
+            let input = || {
+                format!(
+                    "type {}\nfirst content (what the dual held): {}\nsecond content (what was written over it): {}\nroute: {}\nreused dual has raw form {} ; compared with the dual freshly built from {}",
+                    D::NAME, first, second, route, m.text(), o.text()
+                )
+            };
+            let obs = ctx.nopanic("eq-ord-hash-never-panic", || {
+                let f = D::from_raw(&D::Raw::of(o));
+                let twin = D::from_raw(&D::Raw::of(m));
+                (*r == f, f == *r, r.cmp(&f), f.cmp(r), r.partial_cmp(&f), hash_of(r) == hash_of(&f), twin.cmp(&f), r.valid(), format!("{:?}", r))
+            }, input)?;
+            let want_eq = m == o;
+            let (nm, no) = (m.normalized(), o.normalized());
+            let ord_ok = if nm != no { obs.2 == nm.order(&no) } else { (obs.2 == Ordering::Equal) == want_eq };
+            let ok = obs.0 == want_eq && obs.1 == want_eq && ord_ok && obs.3 == obs.2.reverse() && obs.4 == Some(obs.2) && (!want_eq || obs.5) && obs.2 == obs.6;
+            ctx.check("reused-vs-fresh-eq-ord-hash", ok, || {
+                format!(
+                    "{}\nreal code: reused == fresh {}, fresh == reused {}, reused.cmp(fresh) {:?}, fresh.cmp(reused) {:?}, partial_cmp {:?}, equal Hash output {}, a fresh dual of the same raw hash orders {:?}, reused.is_valid() {}\nreused object: {}\noracle: equal {} (raw hashes), Equal exactly when equal, antisymmetric, normalized parts order {:?}, and the same answer as a fresh dual of the same raw hash",
+                    input(), obs.0, obs.1, obs.2, obs.3, obs.4, obs.5, obs.6, obs.7, obs.8, want_eq, nm.order(&no)
+                )
+            })?;
+        }
+    }
+    Ok(())
+}
+
+/// Objects produced INTO previously used destinations by every safe mutating route, then the
+/// C16 laws on mixed (reused, fresh) pairs.
+fn c16_reused_family<F: Family>(ctx: &mut Ctx, first: &Model, second: &Model) -> R {
+    let input = || format!("first content {} , second content {} ({})", first.text(), second.text(), F::Raw::NAME);
+    let (sn, fnm) = (second.normalized(), first.normalized());
+    type Made<T> = Vec<(&'static str, T, Model)>;
+    let made: (Made<F::Raw>, Made<F::Norm>, Made<F::D>) = ctx.nopanic("reinitialisation-never-panics", || {
+        let raw1 = F::Raw::of(first);
+        let raw2 = F::Raw::of(second);
+        let norm1 = F::normalize(&raw1);
+        let norm2 = F::normalize(&raw2);
+        let mut raws: Made<F::Raw> = Vec::new();
+        let mut norms: Made<F::Norm> = Vec::new();
+        let mut duals: Made<F::D> = Vec::new();
+        // dual over a used dual
+        let mut d = F::D::from_raw(&raw1);
+        d.init_from_raw(&raw2);
+        duals.push(("dual.init_from_raw_form over a used dual", d, second.clone()));
+        let mut d2 = F::D::from_raw(&raw2);
+        d2.init_from_raw(&raw1);
+        d2.init_from_raw(&raw2);
+        duals.push(("dual.init_from_raw_form: second, first, second again", d2, second.clone()));
+        let mut d3 = d;
+        d3.norm_in_place();
+        duals.push(("dual.init_from_raw_form over a used dual, then normalize_in_place", d3, sn.clone()));
+        let mut d4 = F::D::from_raw(&raw1);
+        d4.norm_in_place();
+        duals.push(("dual.normalize_in_place on a run-rich dual", d4, fnm.clone()));
+        // raw destinations
+        let mut r = raw1;
+        F::D::from_raw(&raw2).into_mut_raw(&mut r);
+        raws.push(("dual.into_mut_raw_form into a used raw hash", r, second.clone()));
+        raws.push(("to_raw_form of a re-initialised dual", d.to_raw(), second.clone()));
+        let mut r = raw1;
+        F::into_mut_raw_form(&norm2, &mut r);
+        raws.push(("into_mut_raw_form (normalized -> raw) into a used raw hash", r, sn.clone()));
+        let mut r = raw1;
+        r.init_arrays(raw2.lb(), raw2.arr1(), raw2.arr2(), raw2.l1() as u8, raw2.l2() as u8);
+        raws.push(("init_from_internals_raw over a used raw hash", r, second.clone()));
+        let mut r2 = r;
+        r2.norm_in_place();
+        raws.push(("init_from_internals_raw over a used raw hash, then normalize_in_place", r2, sn.clone()));
+        let mut r = raw1;
+        r.norm_in_place();
+        raws.push(("normalize_in_place on a run-rich raw hash", r, fnm.clone()));
+        raws.push(("clone_normalized of a run-rich raw hash", raw1.clone_norm(), fnm.clone()));
+        let mut r = raw1;
+        F::D::from_norm(&norm2).into_mut_raw(&mut r);
+        raws.push(("dual(from_normalized).into_mut_raw_form into a used raw hash", r, sn.clone()));
+        // normalized destinations
+        let mut n = norm1;
+        n.init_arrays(norm2.lb(), norm2.arr1(), norm2.arr2(), norm2.l1() as u8, norm2.l2() as u8);
+        norms.push(("init_from_internals_raw over a used normalized hash", n, sn.clone()));
+        norms.push(("as_normalized of a re-initialised dual", *d.as_norm(), sn.clone()));
+        norms.push(("to_normalized of a re-initialised dual", d.to_norm(), sn.clone()));
+        norms.push(("normalize() of a run-rich raw hash", norm1, fnm.clone()));
+        let mut n = norm1;
+        n.norm_in_place();
+        norms.push(("normalize() then normalize_in_place", n, fnm.clone()));
+        let mut r = raw1;
+        F::into_mut_raw_form(&norm2, &mut r);
+        norms.push(("normalize() of a raw hash written by into_mut_raw_form", F::normalize(&r), sn.clone()));
+        (raws, norms, duals)
+    }, input)?;
+    let (ft, st) = (first.text(), second.text());
+    c16_mixed_plain::<F::Raw>(ctx, &ft, &st, made.0)?;
+    c16_mixed_plain::<F::Norm>(ctx, &ft, &st, made.1)?;
+    c16_mixed_dual::<F::D>(ctx, &ft, &st, made.2)
+}
+
+fn c16_reused_width<W: Width>(ctx: &mut Ctx, first_s: &Model, first_l: &Model, second: &Model) -> R {
+    let input = || format!("first contents {} (short) / {} (long), second content {} ({} / {})", first_s.text(), first_l.text(), second.text(), W::Short::NAME, W::Long::NAME);
+    type Made<T> = Vec<(&'static str, T, Model)>;
+    let made: (Made<W::Short>, Made<W::Long>) = ctx.nopanic("reinitialisation-never-panics", || {
+        let s2 = W::Short::of(second);
+        let mut shorts: Made<W::Short> = Vec::new();
+        let mut longs: Made<W::Long> = Vec::new();
+        let mut l = W::Long::of(first_l);
+        W::into_mut_long_form(&s2, &mut l);
+        longs.push(("into_mut_long_form into a used long hash", l, second.clone()));
+        let mut l2 = l;
+        l2.norm_in_place();
+        longs.push(("into_mut_long_form into a used long hash, then normalize_in_place", l2, second.normalized()));
+        longs.push(("into_mut_long_form into a used long hash, then clone_normalized", l.clone_norm(), second.normalized()));
+        let mut s = W::Short::of(first_s);
+        let _ = W::try_into_mut_short(&W::to_long_form(&s2), &mut s);
+        shorts.push(("try_into_mut_short into a used short hash", s, second.clone()));
+        let mut s = W::Short::of(first_s);
+        let _ = W::try_into_mut_short(&l, &mut s);
+        shorts.push(("into_mut_long_form into a used long hash, then try_into_mut_short into a used short hash", s, second.clone()));
+        if first_l.bh2.len() > 32 {
+            // a refused narrowing leaves the destination as it was
+            let mut s = s2;
+            let _ = W::try_into_mut_short(&W::Long::of(first_l), &mut s);
+            shorts.push(("destination of a refused try_into_mut_short", s, second.clone()));
+        }
+        (shorts, longs)
+    }, input)?;
+    let ft = format!("{} (short destination) / {} (long destination)", first_s.text(), first_l.text());
+    c16_mixed_plain::<W::Short>(ctx, &ft, &second.text(), made.0)?;
+    c16_mixed_plain::<W::Long>(ctx, &ft, &second.text(), made.1)
+}
+
+fn c16_reused_round(ctx: &mut Ctx) -> R {
+    let f_s = gen::model_rich(&mut ctx.rng, 32);
+    let f_l = gen::model_rich(&mut ctx.rng, 64);
+    let s_s = gen::model_second(&mut ctx.rng, 32);
+    let s_l = gen::model_second(&mut ctx.rng, 64);
+    c16_reused_family::<ShortFamily>(ctx, &f_s, &s_s)?;
+    c16_reused_family::<LongFamily>(ctx, &f_l, &s_l)?;
+    c16_reused_width::<RawWidth>(ctx, &f_s, &f_l, &s_s)?;
+    c16_reused_width::<NormWidth>(ctx, &f_s.normalized(), &f_l.normalized(), &s_s.normalized())?;
+    // the second content need not be small
+    let s_s = gen::model_raw(&mut ctx.rng, 32);
+    c16_reused_width::<RawWidth>(ctx, &f_s, &f_l, &s_s)
+}
+
 pub fn c16(ctx: &mut Ctx) -> R {
     while ctx.alive() {
         ctx.input();
+        c16_reused_round(ctx)?;
         c16_plain::<FuzzyHash>(ctx)?;
         c16_plain::<RawFuzzyHash>(ctx)?;
         c16_plain::<LongFuzzyHash>(ctx)?;
